@@ -193,7 +193,7 @@ PROPS["C07"] = dict(
 
 PROPS["C04"] = dict(
     verus_units=["core"],
-    technique="Verus contracts on get_stability_count, the bound check and the prefix-walk slice of get_utxos_from_chain + fork-free corollary lemma",
+    technique="Verus contracts on get_stability_count and on get_utxos_from_chain as a whole (bound check, prefix walk, page cut) + fork-free corollary lemma",
     level_text="unbounded deductive proof that get_stability_count is (depth of the block) - (greatest depth of a competing block at the same height), that the walk applies "
                "exactly the longest prefix of the served chain whose blocks all have stability count >= c and names its last block and height as tip, that a c larger "
                "than the chain is refused with MinConfirmationsTooLarge{given, max}, and (lemma) that on a fork-free chain of L blocks the cut is after block L-c (tip at H-c+1)",
@@ -212,7 +212,7 @@ PROPS["C05"] = dict(
     verus_units=["core"],
     kani=["canister_leaf"],
     replays=[_rp("f5_balance_equals_sum_of_utxos_on_forks", "F5"), _rp("f1_prefix_address_does_not_leak", "F1", "quick")],
-    technique="Verus contracts on both walks (get_utxos prefix walk, get_balance accumulation) against the SAME cut function + bound-check slice",
+    technique="Verus contracts on get_utxos_from_chain (whole) and get_balance_private (up to its metrics) against the SAME cut function, parser and bound",
     level_text="unbounded deductive proof that get_balance adds the per-block deltas of exactly the first cut_len blocks of the served chain — the same blocks, by the same "
                "cut function, that the get_utxos walk applies for the same request — with every u64 addition/subtraction discharged under the stated range assumption; "
                "both refuse a too-large c by comparing with the chain length",
@@ -220,7 +220,7 @@ PROPS["C05"] = dict(
                "refinement (stable structures + entry-API caches); get_balance_private is verified up to its metrics as one slice (`get_balance_private_core`): the same "
                "address parser on the same network and the same bound on c as get_utxos_from_chain_whole (so both refuse the same requests), None = 0 confirmations, the "
                "served chain, the stability rule; Address::from_str_checked itself is an uninterpreted function of (text, network)",
-    explanation="get_balance walk verified as an R8 slice with ghost accounting (balance_after); agreement follows because both contracts are stated over cut_len.",
+    explanation="get_balance_private verified up to its metrics with ghost accounting (balance_after); agreement follows because both contracts are stated over cut_len.",
     unverified_links=[
         "UtxoSet::get_balance (stable balances map with in-progress block reverted), insert_utxo / remove_inputs keeping balances and index in step",
         "OutPointsCache getters (assumed to return the block's outpoints and their cached values)",
@@ -307,7 +307,7 @@ PROPS["C18"] = dict(
 
 PROPS["C15"] = dict(
     verus_units=["core"],
-    technique="Verus contracts on fee_rate_per_vbyte, the nearest-rank index arithmetic of percentiles (closure bodies as slices) and the tip-keyed result cache",
+    technique="Verus contracts on fee_rate_per_vbyte, get_fees_per_byte, get_tx_fee_per_byte, percentiles (whole + closure bodies as slices) and the tip-keyed result cache",
     level_text="unbounded deductive proof that the fee rate is floor(1000 x fee / vsize) millisatoshi per vbyte (None for vsize 0); that for every p in 0..=100 and every "
                "n up to 2^25 the value picked is the one at the nearest-rank index max(0, ceil(p n/100) - 1), which is 0 for p = 0, n-1 for p = 100 and monotone in p "
                "(so 101 non-decreasing values of a sorted vector); and that the cached answer is returned while the tip of the served chain is unchanged, kept when no "
